@@ -23,10 +23,9 @@ Helper machinery in this module (Interp, PathEnum, registrations(), getter evalu
 """
 import ast
 import copy
-import itertools
 
 from ..core import AnalysisError
-from ..index import Mod, get_index
+from ..index import get_index
 
 LEVEL = 'other'
 DESIGN_REF = 'DESIGN.md#c17'
@@ -1261,8 +1260,6 @@ class Routing:
         if not lookups:
             raise AnalysisError('%s %s never calls get_model_from_cache' % (mod.rel, what))
         roles = self._own_roles(fn, lookups, rd, rd_roles, what, want)
-        ps = params_of(fn)
-        inv = {r: p for p, r in roles.items()}
         self.roles['try_get_model'] = roles
 
         def triple(byrole):
@@ -1313,7 +1310,7 @@ class Routing:
                     detail = 'ctor[%s](%s)' % (triple(kr).replace(', options<-missing', ''),
                                                 ', '.join(p.show(a) if not (isinstance(a, ast.Name) and a.id in roles)
                                                           else '$' + roles[a.id] for a in val.args))
-                    ok_ctor = self.finding(arg_ok and key_ok, 'C17.triple', mod, what + ' construction', detail,
+                    self.finding(arg_ok and key_ok, 'C17.triple', mod, what + ' construction', detail,
                                            'the model is not constructed by the constructor registered for (model type, culture) '
                                            'applied to the options', line)
                     n_constructed += 1
@@ -1367,7 +1364,6 @@ class Routing:
         flag = ast.Name(id=rest[0], ctx=ast.Load())
         roles[rest[0]] = 'fallback'
         self.roles['factory.get_model'] = roles
-        ren = {p: '$' + r for p, r in roles.items()}
 
         def classify(call):
             br = self._bind_roles(call, tg, tg_roles, what)
@@ -2011,6 +2007,11 @@ def init_analysis(rt, rc, fn, owner):
                     for probe in (-1, 2 * max(members.values()) + 1 if max(members.values()) > 0 else 1):
                         if not rejected(probe):
                             res['problems'].append('the out-of-range value %d is accepted' % probe)
+                    combo = 0
+                    for mname in res['accepted']:
+                        combo |= members[mname]
+                    if len([mname for mname in res['accepted'] if members[mname]]) > 1 and rejected(combo):
+                        res['combo_rejected'] = [mname for mname in res['accepted'] if members[mname]]
                 except Crash as e:
                     res['problems'].append('the options test raises %s for some member' % e.kind)
     return res
@@ -2032,13 +2033,15 @@ def check_inits(chk, rt):
                                                      info['accepted'])
         if info['guard'] is not None:
             # normal form independent of parameter / local names
-            g = ast.unparse(info['guard'])
             detail = 'rejects options unless in %s; forwards (target_culture, options, lazy)' % (info['accepted'],)
         chk.judge(not info['problems'], 'C17.init', k.mod.path, '%s.__init__' % rc.name,
                   detail if not info['problems'] else '; '.join(sorted(set(info['problems']))),
                   '%s.__init__: %s' % (rc.name, '; '.join(sorted(set(info['problems'])))), info['line'])
         if info['rejected']:
             chk.observe('C17.init %s rejects these members of %s: %s' % (rc.name, info['enum'].name, ', '.join(info['rejected'])))
+        if info.get('combo_rejected'):
+            chk.observe('C17.init %s rejects the combination of accepted flags %s (range test on an IntFlag)'
+                        % (rc.name, ' | '.join(info['combo_rejected'])))
     ctl = ast.parse("class R:\n def __init__(self, target_culture=None, options=O.NONE, lazy_initialization=True):\n"
                     "  super().__init__(target_culture, options, lazy_initialization)\n").body[0].body[0]
     fake_owner = type('O', (), {'mod': rt.recognizer_mod, 'name': 'control'})()
@@ -2563,3 +2566,34 @@ def run(chk):
     chk.exhaustive = True
     chk.extra['registrations'] = len(registrations(rt))
     chk.extra['recognisers'] = [rc.qual for rc in rt.recognizers]
+
+
+def thorough(chk):
+    """wider partition for the culture mapping: every two-letter language tag, both letter cases"""
+    import string
+    rt = Routing(get_index())
+    mod = rt.culture_mod
+    supported = rt.supported_codes()
+    fn = rt.meth(rt.Culture, 'map_to_nearest_language')
+    quirks = []
+    for a in string.ascii_lowercase:
+        for b in string.ascii_lowercase:
+            for code in (a + b + '-zz', (a + b).upper() + '-ZZ'):
+                want = reference_map(code, supported)
+                try:
+                    got = rt.interp.call(mod, fn, [code], None, None, 'Culture.map_to_nearest_language')
+                    shown = repr(got)
+                except Crash as e:
+                    got, shown = Crash, 'raises %s' % e.kind
+                chk.judge(got == want, 'C17.map', mod.path, 'Culture.map_to_nearest_language(%r)' % code, '-> %s' % shown,
+                          'culture %r maps to %s, the decision table says %r' % (code, shown, want), fn.lineno)
+        code = a + '-zz'
+        try:
+            got = rt.interp.call(mod, fn, [code], None, None, 'Culture.map_to_nearest_language')
+        except Crash:
+            got = None
+        if got != code:
+            quirks.append('%s->%s' % (code, got))
+    if quirks:
+        chk.observe('C17.map malformed one-letter language tags resolve by prefix match (supported.startswith(prefix), as in the JavaScript port; .NET tests the other direction): '
+                    + ', '.join(quirks))
